@@ -39,7 +39,7 @@ Fixpoint cfg_starts (fuel : nat) (K : cfg) (s : sym) : bool :=
     match K1 with
     | FSeq ss :: K' => let x := starts f ss s in fst x || (snd x && cfg_starts f K' s)
     | _ => false
-    end) (leaves (settle true f K))
+    end) (leaves (settle false f K))
   end.
 
 Inductive amb_kind := AmbOptional | AmbOpenMatch | AmbWait | AmbCaseTwo | AmbCasePrefix | AmbGreedyTie.
@@ -87,7 +87,7 @@ Definition amb_of_cfg (f : nat) (syms : list sym) (K : cfg) : option (cfg * sym 
     match acc with Some _ => acc | None =>
       fold_left (fun acc2 s => match acc2 with Some _ => acc2 | None =>
                    match ambiguous_at f K1 s with Some k => Some (K1, s, k) | None => None end end) syms None
-    end) (leaves (settle true f K)) None.
+    end) (leaves (settle false f K)) None.
 
 Definition find_ambiguity (f : nat) (syms : list sym) (tbl : list cfg) : option (cfg * sym * amb_kind) :=
   fold_left (fun acc K => match acc with Some _ => acc | None => amb_of_cfg f syms K end) tbl None.
@@ -123,7 +123,7 @@ Qed.
 
 (** no decision of any configuration in the table is ambiguous *)
 Theorem find_ambiguity_none f syms tbl : find_ambiguity f syms tbl = None ->
-  forall K, In K tbl -> forall K1, In K1 (leaves (settle true f K)) -> forall s, In s syms ->
+  forall K, In K tbl -> forall K1, In K1 (leaves (settle false f K)) -> forall s, In s syms ->
   ambiguous_at f K1 s = None.
 Proof.
   intros H K HK K1 HK1 s Hs. unfold find_ambiguity in H.
